@@ -108,10 +108,10 @@ Section RelM.
       destruct (nsig cs h m) as [sg|e], (nsig cs' h' m) as [sg'|e']; try contradiction; cbn [bind]; [|subst; reflexivity].
       destruct Hsig as [Et [Ei Fa]]. rewrite Et, Ei.
       assert (ET : (match sg_task sg' with
-                    | Some t => do r <- hv H cs h look f (m :: st) (VRef t); Ok (TASK_ID :: fst r, snd r)
+                    | Some t => do r <- hv H cs h look f (m :: st) (VRef t); Ok (tmark (m :: st) t (fst r), snd r)
                     | None => Ok ([], 0) end)
                  = (match sg_task sg' with
-                    | Some t => do r <- hv H cs' h' look f (m :: st) (VRef t); Ok (TASK_ID :: fst r, snd r)
+                    | Some t => do r <- hv H cs' h' look f (m :: st) (VRef t); Ok (tmark (m :: st) t (fst r), snd r)
                     | None => Ok ([], 0) end)).
       { destruct (sg_task sg'); [|reflexivity]. rewrite (IH (m :: st) (VRef n) (VRef n) eq_refl). reflexivity. }
       rewrite ET.
@@ -171,10 +171,10 @@ Proof.
   destruct (nsig cs h m) as [sg|e], (nsig cs h' m) as [sg'|e']; try contradiction; cbn [bind]; [|subst; reflexivity].
   destruct Sm as [Et [Ei Fa]]. rewrite Et, Ei.
   assert (ET : (match sg_task sg' with
-                | Some t => do r <- hv H cs h look fuel [m] (VRef t); Ok (TASK_ID :: fst r, snd r)
+                | Some t => do r <- hv H cs h look fuel [m] (VRef t); Ok (tmark [m] t (fst r), snd r)
                 | None => Ok ([], 0) end)
              = (match sg_task sg' with
-                | Some t => do r <- hv H cs h' look fuel [m] (VRef t); Ok (TASK_ID :: fst r, snd r)
+                | Some t => do r <- hv H cs h' look fuel [m] (VRef t); Ok (tmark [m] t (fst r), snd r)
                 | None => Ok ([], 0) end)).
   { destruct (sg_task sg') as [t|]; [|reflexivity]. rewrite (hv_rel_m H cs cs h h' look M S fuel [m] (VRef t) (VRef t) eq_refl). reflexivity. }
   rewrite ET.
